@@ -253,6 +253,14 @@ def make_behavior(cfg, el, dim, ps, solver, g=None, tau=None):
             kw["kinematic"] = KinematicHardening.Chaboche((12.0, 3.0), (4.0, 0.0))
     if g is not None:
         kw["branches"] = [ViscoElastic.Maxwell(gi, ti) for gi, ti in zip(g, tau)]
+    if cfg.get("rate") == "norton":
+        from EasyFEA.Models.InElastic import ViscoPlastic
+
+        kw["rate"] = ViscoPlastic.Norton(0.001, 1.0, 2.0)
+    elif cfg.get("rate") == "perzyna":
+        from EasyFEA.Models.InElastic import ViscoPlastic
+
+        kw["rate"] = ViscoPlastic.Perzyna(50.0, 2.0, 1.0)
     return Behavior(dim, el, planeStress=ps, solver=solver, **kw)
 
 
@@ -276,7 +284,8 @@ def job_inactive(cfg):
     alphas = [sym_array(f"alpha{i}", (6,), -r, r, shadows=[Fraction(k + 1, 2300 + 53 * k + 400 * i) * (-1) ** k for k in range(6)]) for i in range(nk)]
     res.symbols = n + 7 + 6 * nk
     zold = np.concatenate([epsP, [p]] + alphas)
-    label = f"inactive {cfg['surface']} {cfg.get('hardening')} kin={cfg.get('kinematic')} {law} {mode} solver={solver}"
+    label = f"inactive {cfg['surface']} {cfg.get('hardening')} kin={cfg.get('kinematic')} {law} {mode} solver={solver}" + (f" rate={cfg['rate']}" if cfg.get("rate") else "")
+    DT = 0.5 if cfg.get("rate") else 0.0  # a rate law needs a positive time increment
     res.functions |= {"Behavior.Integrate", "Behavior.__Integrate_3d", "Behavior.__Flow", "Behavior.__Residual", "Behavior.__Jacobian", "Behavior.__Freeze", "Behavior.__Pin", "Behavior.__Norm",
                       "Behavior.__Converged", "Behavior.__Bound", "Behavior.__Spectral", "_spectral.Solve", "_spectral._Phi", "_spectral.Tangent", "Behavior.__Condense", "Behavior.Compute_back_stress",
                       "Yield.VonMises / Hill / DruckerPrager (f, N, dNdSig)", "IsotropicHardening.Linear", "KinematicHardening.ArmstrongFrederick"}
@@ -293,8 +302,8 @@ def job_inactive(cfg):
         ef, zf = farr(c, env, eps), farr(c, env, zold)
         bb = make_behavior(cfg, el, dim, ps, solver_)
         zin = fe(zf.copy())
-        s, Ca, zz, cv = bb.Integrate(fe(ef), zin, 0.0)
-        e6f = np.asarray(bb.Compute_strain_6d(fe(ef), fe(zf.copy()), 0.0))[0, 0]
+        s, Ca, zz, cv = bb.Integrate(fe(ef), zin, DT)
+        e6f = np.asarray(bb.Compute_strain_6d(fe(ef), fe(zf.copy()), DT))[0, 0]
         return ef, zf, np.asarray(s)[0, 0], np.asarray(Ca)[0, 0], np.asarray(zz)[0, 0], np.asarray(zin)[0, 0], e6f
 
     def replay(env):
@@ -320,8 +329,8 @@ def job_inactive(cfg):
         z_in = fe(zold.copy())
         e_in = fe(eps.copy())
         keep_z = np.array(np.asarray(z_in), dtype=object, copy=True)
-        sig, Calg, z, conv = b.Integrate(e_in, z_in, 0.0)
-        e6 = np.asarray(b.Compute_strain_6d(fe(eps.copy()), fe(zold.copy()), 0.0))[0, 0]
+        sig, Calg, z, conv = b.Integrate(e_in, z_in, DT)
+        e6 = np.asarray(b.Compute_strain_6d(fe(eps.copy()), fe(zold.copy()), DT))[0, 0]
     pcs = c.pc_since(mark)
     res.paths, res.path_conditions = 1, len(pcs)
     sig, Calg, z = np.asarray(sig)[0, 0], np.asarray(Calg)[0, 0], np.asarray(z)[0, 0]
@@ -342,7 +351,7 @@ def job_inactive(cfg):
     if solver == "auto" and spectral:
         with facade.symbolic():
             bn = make_behavior(cfg, el, dim, ps, "newton")
-            sn, Cn, zn, _ = bn.Integrate(fe(eps.copy()), fe(zold.copy()), 0.0)
+            sn, Cn, zn, _ = bn.Integrate(fe(eps.copy()), fe(zold.copy()), DT)
         pcs2 = c.pc_since(mark)
         record_entries(res, f"{label}: spectral and Newton solvers agree (stress)", sig, np.asarray(sn)[0, 0], pcs2, replay, tol, scale=scale * r)
         record_entries(res, f"{label}: spectral and Newton solvers agree (tangent)", Calg, np.asarray(Cn)[0, 0], pcs2, replay, tol, scale=scale)
@@ -1042,6 +1051,12 @@ def main():
     for surf, hard, kin, solver in inact:
         for mode in (modes if tier == "thorough" or (surf, kin) in (("vm", None), ("vm", "af")) else ["3D"]):
             configs.append({"kind": "inactive", "law": "iso", "mode": mode, "surface": surf, "hardening": hard, "kinematic": kin, "solver": solver})
+    # viscoplastic rate laws on steps below the surface (nothing flows: same elastic answer, no overstress needed)
+    configs.append({"kind": "inactive", "law": "iso", "mode": "3D", "surface": "vm", "hardening": "linear", "kinematic": None, "solver": "auto", "rate": "norton"})
+    configs.append({"kind": "inactive", "law": "iso", "mode": "pstress", "surface": "dp", "hardening": "linear", "kinematic": "af", "solver": "newton", "rate": "perzyna"})
+    if tier == "thorough":
+        configs.append({"kind": "inactive", "law": "iso", "mode": "pstrain", "surface": "hill", "hardening": "linear", "kinematic": None, "solver": "auto", "rate": "perzyna"})
+        configs.append({"kind": "inactive", "law": "ti", "mode": "3D", "surface": "vm", "hardening": "linear", "kinematic": "chaboche", "solver": "auto", "rate": "norton"})
     if tier == "thorough":
         for surf, hard, kin, solver in inact[:4]:
             configs.append({"kind": "inactive", "law": "ti", "mode": "3D", "surface": surf, "hardening": hard, "kinematic": kin, "solver": solver})
@@ -1071,7 +1086,7 @@ def main():
                     "test evaluated on the fresh symbol, their outcome recorded), everything after the loop is the real code; Simulations.InElastic with a Maxwell material and symbolic load amplitudes for the commit discipline.  "
                     "'probe' jobs are concrete 100-step plastic paths (ground facts, no quantifier) for the configurations outside the symbolic bound.",
         bound={"elastic_laws": ["isotropic E=200 v=1/4", "isotropic E=70 v=0.3 (thorough)", "transversely isotropic with tilted axes"], "modes": modes, "surfaces": ["VonMises", "Hill (anisotropic coefficients)", "DruckerPrager"],
-               "hardening": ["Linear"], "kinematic": ["ArmstrongFrederick", "Chaboche x2"], "Maxwell_branches": [1, 2], "gauss_points": 1,
+               "hardening": ["Linear"], "kinematic": ["ArmstrongFrederick", "Chaboche x2"], "rate_laws_on_inactive_steps": ["Norton", "Perzyna"], "Maxwell_branches": [1, 2], "gauss_points": 1,
                "strain_box": "[-1,1]^n (no yield surface) / [-1/400,1/400]^n with sigma_y = 10 (inactive steps) / [-1/4,1/4]^n on the active path (spectral jobs)", "steps": 1,
                "spectral_return": {"theta_star": "[0, 1/500] (theta lambda_max <= 1/2)", "H": "[0, 50]", "p": "[0, 1]", "surfaces": ["VonMises", "Hill (thorough)"], "modes": ["3D", "plane strain"],
                                    "exit_condition": "both signs of the residual (two jobs per configuration)"},
